@@ -1140,7 +1140,7 @@ def task_epochs(task):
             rc, so, se = run_cmd([exes["defhist"], r1["path"]] + [q[1] for q in pick])
             so = (so or b"").decode("utf8", "replace") if isinstance(so, bytes) else (so or "")
             done = re.search(r"DONE sequences=(\d+) steps=(\d+)", so)
-            run = {"tool": "defhist", "s1": s1, "seconds": [q[0] for q in pick]}
+            run = {"tool": "defhist", "s1": s1, "s2": s1, "hist_seconds": [q[0] for q in pick]}
             if rc != 0 or not done:
                 cx.v("C12|deformation|object-history|crash|epochs-%s" % fam[0], "rc=%s out=%r err=%r" % (rc, so[-200:], (se or b"")[-300:]), run)
             else:
@@ -1342,6 +1342,22 @@ def replay_epochs(ck, exes, rp):
     case = rp["case"]
     fam = tuple(case["fam"]); s1, s2 = case["s1"], case["s2"]
     d = ep_dir(ck.tmp, fam); os.makedirs(d, exist_ok=True)
+    if case.get("tool") == "defhist":
+        # object history: adjust the first epoch and the recorded second epochs, then every sequence of <= 3 pairs on one object
+        paths = []
+        for k, st in enumerate([s1] + list(case["hist_seconds"])):
+            inp = os.path.join(d, "hist%d.gkf" % k); outp = os.path.join(d, "hist%d.xml" % k)
+            with open(inp, "w", encoding="utf8") as f: f.write(EP.gkf(fam, st))
+            rc, so, se = run_cmd([exes["gama"], inp, "--xml", outp])
+            print("replay: gama-local hist%d.gkf --xml hist%d.xml (family %s, statuses %s) rc=%s" % (k, k, EP.famkey(fam), st, rc))
+            paths.append(outp)
+        rc, so, se = run_cmd([exes["defhist"]] + paths)
+        so = so.decode("utf8", "replace")
+        print("replay: defhist hist0.xml " + " ".join("hist%d.xml" % k for k in range(1, len(paths))) + "  (pair k = first epoch with second epoch k; one object per sequence)")
+        print(so[-2000:])
+        bad = rc != 0 or "DIFF " in so or "DONE" not in so
+        print(("SAME " + rp["sig"]) if bad else ("violation %s not reproduced" % rp["sig"]))
+        sys.exit(1 if bad else 0)
     stored = rp.get("files") or {}
     cx = Ctx({"kind": "epochs", "fam": list(fam), "s1": s1})
     views = []
